@@ -181,31 +181,67 @@ def fold_rule(ctx, rule):
         return
     rep.analysed(bf)
     tf = [(bi, t) for bi, t in bf.calls() if callee_def(t) == "std::iter::Iterator::try_fold"]
-    ok = len(tf) == 1
-    why = "" if ok else "expected one try_fold, found %d" % len(tf)
-    if ok:
-        bi, t = tf[0]
-        init = origins(bf, t["args"][1])
-        it = origins(bf, t["args"][0])
-        if not any(d[0] == "param" and d[1] == 2 for d, _ in init):
-            ok, why = False, "the fold does not start from lhs"
-        elif not any(d[0] == "param" and d[1] == 3 for d, _ in it):
-            ok, why = False, "the fold does not run over the rhs iterator"
-        elif t["dest"]["l"] != 0:
-            ok, why = False, "the fold result is not returned"
-    rep.ob(rule, "fold::try_fold(lhs)", ok, why, bf.loc(), how="rhs.try_fold(lhs, ..) returned")
-    # the folding closure hands (operator, accumulator, element, this) to op in that order
-    cl = [f for f in F.closures_of(bf)]
-    ok2, why2 = False, "folding closure not recognised"
-    for cf in cl:
-        cs = [(bi, t) for bi, t in cf.calls() if callee_def(t) == OPFN]
-        if len(cs) == 1:
-            t = cs[0][1]
-            a = origins(cf, t["args"][1])
-            b = origins(cf, t["args"][2])
-            ok2 = any(d[0] == "param" and d[1] == 2 for d, _ in a) and any(d[0] == "param" and d[1] == 3 for d, _ in b) and t["dest"]["l"] == 0
-            why2 = "" if ok2 else "op is not called as op(operator, accumulator, element, this)"
-    rep.ob(rule, "fold::accumulator-is-left-operand", ok2, why2, bf.loc(), how="|a, b| op(operator, a, b, this)")
+    if tf:
+        # shape A: rhs.try_fold(lhs, |a, b| op(operator, a, b, this))
+        ok = len(tf) == 1
+        why = "" if ok else "expected one try_fold, found %d" % len(tf)
+        if ok:
+            bi, t = tf[0]
+            init = origins(bf, t["args"][1])
+            it = origins(bf, t["args"][0])
+            if not any(d[0] == "param" and d[1] == 2 for d, _ in init):
+                ok, why = False, "the fold does not start from lhs"
+            elif not any(d[0] == "param" and d[1] == 3 for d, _ in it):
+                ok, why = False, "the fold does not run over the rhs iterator"
+            elif t["dest"]["l"] != 0:
+                ok, why = False, "the fold result is not returned"
+        rep.ob(rule, "fold::try_fold(lhs)", ok, why, bf.loc(), how="rhs.try_fold(lhs, ..) returned")
+        # the folding closure hands (operator, accumulator, element, this) to op in that order
+        cl = [f for f in F.closures_of(bf)]
+        ok2, why2 = False, "folding closure not recognised"
+        for cf in cl:
+            cs = [(bi, t) for bi, t in cf.calls() if callee_def(t) == OPFN]
+            if len(cs) == 1:
+                t = cs[0][1]
+                a = origins(cf, t["args"][1])
+                b = origins(cf, t["args"][2])
+                ok2 = any(d[0] == "param" and d[1] == 2 for d, _ in a) and any(d[0] == "param" and d[1] == 3 for d, _ in b) and t["dest"]["l"] == 0
+                why2 = "" if ok2 else "op is not called as op(operator, accumulator, element, this)"
+        rep.ob(rule, "fold::accumulator-is-left-operand", ok2, why2, bf.loc(), how="|a, b| op(operator, a, b, this)")
+    else:
+        # shape B: let mut acc = lhs; for b in rhs { acc = op(operator, acc, b, this)?; } Ok(acc)
+        ops = [(bi, t) for bi, t in bf.calls() if callee_def(t) == OPFN]
+        nexts = [bi for bi, t in bf.calls() if t["callee"].get("name") == "next" and any(d == ("param", 3) for d, _ in kind_deep(bf, t["args"][0]))]
+        ok = len(ops) == 1 and len(nexts) == 1
+        why = "" if ok else "neither try_fold nor a recognisable loop (one op call, one next on rhs): %d / %d" % (len(ops), len(nexts))
+        ok2, why2 = ok, why
+        if ok:
+            ob, ot = ops[0]
+            acc = {d for d, _ in origins(bf, ot["args"][1])}
+
+            def from_op(d):
+                if d == ("call", ob):
+                    return True
+                if d[0] == "call" and bf.term(d[1])["callee"].get("name") == "branch":
+                    return all(x == ("call", ob) for x, _ in origins(bf, bf.term(d[1])["args"][0]))
+                return False
+            acc_ok = ("param", 2) in acc and all(d == ("param", 2) or from_op(d) for d in acc)
+            elem_ok = any(d == ("call", nexts[0]) for d, _ in kind_deep(bf, ot["args"][2])) and not any(d == ("param", 2) for d, _ in kind_deep(bf, ot["args"][2]))
+            brs = [bi for bi, t in bf.calls() if callee_def(t) == "std::ops::Try::branch" and any(d == ("call", ob) for d, _ in origins(bf, t["args"][0]))]
+            rets = [(bi, si, st) for bi, si, st in bf.assigns() if st["pl"]["l"] == 0 and isinstance(st["rv"].get("agg"), dict) and st["rv"]["agg"].get("variant") == "Ok"]
+            ret_ok = bool(rets) and all(all(d == ("param", 2) or from_op(d) for d, _ in origins(bf, st["rv"]["ops"][0])) for _, _, st in rets)
+            if not acc_ok:
+                ok2, why2 = False, "the accumulator handed to op is not lhs / the previous result"
+            elif not elem_ok:
+                ok2, why2 = False, "the element handed to op is not the next operand of rhs"
+            if not brs:
+                ok, why = False, "the result of op is not checked with `?`: an error would not end the fold"
+            elif not ret_ok:
+                ok, why = False, "the fold does not return the accumulator"
+            elif any(t["callee"].get("name") in ("rev", "next_back") for bi, t in bf.calls()):
+                ok, why = False, "the operands are taken from the back"
+        rep.ob(rule, "fold::try_fold(lhs)", ok, why, bf.loc(), how="acc = lhs; for b in rhs { acc = op(..)? }; Ok(acc)")
+        rep.ob(rule, "fold::accumulator-is-left-operand", ok2, why2, bf.loc(), how="op(operator, acc, b, this)")
     # callers: rhs iterator is once(first).chain(rest) (forward), lhs evaluated first
     for owner, mname, trait in (("exec::produce_val::ProduceVal", "visit_binary_expression", VE), ("exec::exec_stmt::ExecStmt", "visit_assignment", VP)):
         fn = find_method(F, trait, mname, owner)
@@ -213,10 +249,15 @@ def fold_rule(ctx, rule):
             rep.fail(rule, "anchor::" + mname, "%s::%s not found" % (owner, mname))
             continue
         rep.analysed(fn)
-        cs = [(bi, t) for bi, t in fn.calls() if callee_def(t) == "exec::produce_val::binary_operator_fold"]
+        # the call may sit in the method itself or in a private helper it delegates the folding to
+        hosts = [b for b in common.bodies_with_helpers(F, fn, depth=1) if b.kind != "closure"]
+        found = [(b, bi, t) for b in hosts for bi, t in b.calls() if callee_def(t) == "exec::produce_val::binary_operator_fold"]
+        cs = [(bi, t) for b, bi, t in found]
         ok = len(cs) == 1
         why = "" if ok else "expected one call of binary_operator_fold, found %d" % len(cs)
         if ok:
+            fn = found[0][0]
+            rep.analysed(fn)
             bi, t = cs[0]
             revs = [b2 for b2, t2 in fn.calls() if is_callee(t2, "std::iter::Iterator::rev")]
             if revs:
